@@ -156,7 +156,22 @@ fn panic_class(p: &Box<dyn std::any::Any + Send>) -> &'static str {
 
 fn trace_string(trace: &[TLine]) -> String {
     let mut s = String::new();
-    for l in trace {
+    // lines without a second field are not records: a third of the traces carry an empty line, a blank
+    // line of spaces and a one-word line between their records (the parser skips them; chosen from the
+    // content so that a replay reproduces them)
+    let noise = trace.len() >= 2 && trace.iter().map(|l| l.t).sum::<u64>() % 3 == 0;
+    for (i, l) in trace.iter().enumerate() {
+        if noise {
+            if i == 1 {
+                s.push('\n');
+            }
+            if i == trace.len() / 2 + 1 {
+                s.push_str("   \n");
+            }
+            if i + 1 == trace.len() {
+                s.push_str("end-of-capture\n");
+            }
+        }
         if l.size {
             let _ = writeln!(s, "{},{},{}", l.t, TOKS[l.tok as usize], 100 + (l.t % 1400));
         } else {
